@@ -51,7 +51,17 @@ def rule_I2(ctx, prog, label, rule='I2'):
         for cn in g.nodes:
             if cn.kind != 'branch':
                 continue
-            if not any(x.kind == 'DeclRefExpr' and x.refid == vid for x in cn.ast.walk()):
+            def _mentions(e, depth=0):
+                for x in e.walk():
+                    if x.kind == 'DeclRefExpr' and x.refid == vid:
+                        return True
+                    # a verdict kept in a flag local (`const int depth_ok = (bit_depth == 1 && channels == 1)`)
+                    if x.kind == 'DeclRefExpr' and x.refkind == 'VarDecl' and depth < 3:
+                        d = fs.single_def(x.refid)
+                        if d is not None and _mentions(d, depth + 1):
+                            return True
+                return False
+            if not _mentions(cn.ast):
                 continue
             if not all(cn.id in dom.get(rn.id, ()) for rn in read_nodes):
                 why = 'is tested, but not on every path to png_read_row'
@@ -125,6 +135,20 @@ def rule_I1(ctx, prog, label, rule='I1'):
                         if t.kind == 'DeclRefExpr' and t.refid not in tainted and t.refkind == 'VarDecl':
                             tainted.add(t.refid)
                             changed = True
+    # data flow: a local computed from a tainted value is tainted
+    changed = True
+    while changed:
+        changed = False
+        for n in f.body.walk():
+            tgt, rhs = None, None
+            if n.kind == 'VarDecl' and n.kids and n.init:
+                tgt, rhs = n.id, n.kids[-1]
+            elif n.kind == 'BinaryOperator' and n.op == '=' and strip(n.kids[0]).kind == 'DeclRefExpr':
+                tgt, rhs = strip(n.kids[0]).refid, n.kids[1]
+            if tgt is not None and tgt not in tainted and any(x.kind == 'DeclRefExpr' and x.refid in tainted for x in rhs.walk()):
+                tainted.add(tgt)
+                changed = True
+    tnames = set(fs.decl[t].name for t in tainted if t in fs.decl)
     for (cn, c, role, arg) in sinks:
         for _once in (1,):
             vars_ = [x for x in arg.walk() if x.kind == 'DeclRefExpr' and x.refid in tainted]
@@ -140,7 +164,7 @@ def rule_I1(ctx, prog, label, rule='I1'):
                 for (op, l, r, node) in gd.atoms:
                     # normalise to  X op Y  with X mentioning the variable
                     for (x, y, o) in ((l, r, op), (r, l, {'<': '>', '>': '<', '<=': '>=', '>=': '<=', '!=': '!=', '==': '=='}[op])):
-                        if v.ref not in x.atoms():
+                        if not (set(x.atoms()) & (set(expr.atoms()) & tnames)) and v.ref not in x.atoms():
                             continue
                         d = x - expr           # x = expr + const
                         if not d.is_const():
